@@ -164,6 +164,8 @@ struct XmlKnobs
     bool comment_in_text{false};        // separately reported family (F-C04-1)
     bool project_root{false};           // <project> instead of <nta>   (not used by default)
     bool crlf{false};                   // CRLF line ends inside text blocks
+    bool split_instantiation{false};    // the instantiations stand in an <instantiation> element in front of <system> (legacy
+                                        // layout the DTD still allows); not drawn by default: blocks are addressed by /nta/system
     int imports_elem{0};                // 1: <imports>text</imports>, 2: <imports/> as the first child (optional in the DTD)
     int big_text_lines{0};              // > 0: the global declaration starts with a comment of that many lines (a text node of
                                         // tens of KB: libxml2 refills its input buffer several times inside one text node)
